@@ -6,6 +6,7 @@ CONSTANT BigReps = TRUE
 INIT Init
 NEXT Next
 INVARIANT Recorded
+INVARIANT FlagIrrelevant
 INVARIANT MonotoneKeys
 INVARIANT MonotoneInterval
 INVARIANT Thresholds
